@@ -538,7 +538,60 @@ def r07_6(chk, K):
 
 
 # ------------------------------------------------------------------------------------------------
+def legendre_refresh(chk, sht):
+    """Typestate of the Legendre work array: in every SHT method that reads self.plm_work_array (or hands the object to a compiled kernel,
+    which reads it), the associated Legendre functions are evaluated INTO that array, at the cos(theta) of the ring being processed, before
+    the first read of the ring - a missing or misplaced evaluation leaves the values of the previous ring (or of a previous call) in place."""
+    for fn in sht.methods("SHT"):
+        q = f"SHT.{fn.name}"
+        if "plm_work_array" not in ast.unparse(fn) or fn.name == "__init__":
+            continue
+        ev = sht.ev(q)
+        evals, reads = [], []
+        for i, e in enumerate(ev.events):
+            if e.value is None:
+                continue
+            k = e.value.key()
+            a = e.value.as_atom()
+            if e.kind == "call" and e.target is not None and e.target.key().endswith(".evaluate_batch"):
+                kw = dict(e.extra["kwargs"])
+                res = kw.get("result") or (e.extra["args"][1] if len(e.extra["args"]) > 1 else None)
+                if res is not None and res.key() == "self.plm_work_array":
+                    evals.append((i, e))
+                continue
+            if e.kind == "call" and "kernel" in (e.target.key() if e.target is not None else "") and any(x.key() == "self" for x in e.extra.get("args", ())):
+                reads.append((i, e))
+            elif e.kind in ("assign", "aug", "store", "return") and "self.plm_work_array" in k:
+                reads.append((i, e))
+        if not reads:
+            continue
+        chk.saw(SHT, q)
+        first = reads[0]
+        ring = first[1].loops[0] if first[1].loops else None
+        # the evaluation that serves a read: earlier in the same pass of the outermost loop that encloses both (or before any loop)
+        ok = False
+        arg_ok = False
+        for i, e in evals:
+            same_pass = all(any(l.k == m.k for m in first[1].loops) for l in e.loops)
+            if i < first[0] and same_pass:
+                ok = True
+                x = e.extra["args"][0]
+                inner = e.loops[-1] if e.loops else None
+                arg_ok = (inner is not None and inner.index is not None and x.key() in (f"self.cos_theta[{inner.index.key()}]",)) or \
+                    (inner is None and (x.key().startswith("cos(") or x.as_atom() and x.as_atom()[0] == "name"))
+        # ... once per ring: inside the loop over the rings, not hoisted out of it
+        per_ring = True
+        if ok and any(l.kind == "enumerate" and l.iter is not None and l.iter.key() == "self.cos_theta" for l in first[1].loops):
+            ring_k = [l.k for l in first[1].loops if l.iter is not None and l.iter.key() == "self.cos_theta"][0]
+            per_ring = any(i < first[0] and any(l.k == ring_k for l in e.loops) for i, e in evals)
+        chk.ob("R07.7", SHT, q, "the associated Legendre functions are evaluated into the work array, at the cos(theta) of the current ring, before the "
+               "ring's first read of it (in every pass of the ring loop)", ok and arg_ok and per_ring, node=first[1].node, fingerprint=f"legendre-refresh:{q}",
+               expected="self.plm.evaluate_batch(cos_theta[ring], result=self.plm_work_array) before the reads",
+               found=f"{len(evals)} evaluation(s) into the work array, first read at line {first[1].lineno}: preceded {ok}, argument {arg_ok}, per ring {per_ring}")
+
+
 def r07_7(chk, sht):
+    legendre_refresh(chk, sht)
     norms = set()
     pairing = []
     for q in ("SHT.analysis", "SHT.synthesis", "SHT.analysis_pure_python", "SHT.analysis_pure_python_cplx",
